@@ -49,34 +49,24 @@ theorem ladN_fst_indep (rk jb : List Nat) (h : Nat) : ∀ (fuel c hf hf' y y' : 
 theorem toB_inj (a b : List Nat) (ha : ∀ x ∈ a, x < 2 ^ 8) (hb : ∀ x ∈ b, x < 2 ^ 8) (h : toB a = toB b) : a = b := by
   rw [← toNat_toB a ha, ← toNat_toB b hb, h]
 
-/-- **what `openAsm` decides and writes (12-byte nonce) is `Model.GCM.open`** -/
-theorem open_model12 (rk nonce ct aad : List Nat) (t fuel : Nat) (hn : nonce.length = 12) (hnb : ∀ x ∈ nonce, x < 2 ^ 8)
+/-- **what `openAsm` decides and writes is `Model.GCM.open`**, given that `jb` is the pre-counter block of the nonce -/
+theorem open_modelJ (rk jb nonce ct aad : List Nat) (t fuel : Nat) (hjb : jb.length = 16) (hjbb : ∀ x ∈ jb, x < 2 ^ 8)
+    (hj : calculateJ0 (hPowers (encE rk (List.replicate 16 0))) (toB nonce) = blockToNat (toB jb))
     (hcb : ∀ x ∈ ct, x < 2 ^ 8) (hab : ∀ x ∈ aad, x < 2 ^ 8) (ht : t ≤ 16) (htc : t ≤ ct.length) (hfuel : fuelNeed (ct.length - t) ≤ fuel) :
     Model.GCM.open (encE rk) t (toB nonce) (toB ct) (toB aad)
-      = if orBytes (xorN ((openTagN rk nonce ct aad t).take t) (ct.drop (ct.length - t))) = 0
-        then some (toB (openOutN rk nonce ct t fuel)) else none := by
+      = if orBytes (xorN ((openTagJ rk jb ct aad t).take t) (ct.drop (ct.length - t))) = 0
+        then some (toB (openOutJ rk jb ct t fuel)) else none := by
   have hE := encE_length rk
-  have hjb : (nonce ++ [0, 0, 0, 1]).length = 16 := by simp [hn]
-  have hjbb : ∀ x ∈ nonce ++ [0, 0, 0, 1], x < 2 ^ 8 := by
-    intro x hx
-    rw [List.mem_append] at hx
-    rcases hx with h1 | h1
-    · exact hnb x h1
-    · simp only [List.mem_cons, List.not_mem_nil, or_false] at h1
-      rcases h1 with rfl | rfl | rfl | rfl <;> decide
   have hH := H_lt hE
   have hh := hPowers_h hE
   have hP := powOK_hPowers (hE (List.replicate 16 0))
   have hBl := hE (List.replicate 16 0)
   obtain ⟨nC, hnC⟩ : ∃ nC, nC = ct.length - t := ⟨_, rfl⟩
-  unfold Model.GCM.open openTagN openOutN cryptoBlocks
+  unfold Model.GCM.open openTagJ openOutJ cryptoBlocks
   simp only [toB_length]
   rw [if_neg (by omega), hKey_eq, ← hnC]
   generalize encE rk (List.replicate 16 0) = hB at *
-  have hj0 : calculateJ0 (hPowers hB) (toB nonce) = blockToNat (toB (nonce ++ [0, 0, 0, 1])) := by
-    unfold calculateJ0
-    rw [if_pos (by rw [toB_length]; exact hn), toB_append]
-    rfl
+  have hj0 := hj
   have hCb : ∀ x ∈ ct.take nC, x < 2 ^ 8 := fun x hx => hcb x (List.mem_of_mem_take hx)
   have hy0 := ghUpdN_eq hB 0 aad hab
   have hy1 := ghUpdN_eq hB (ghUpdate (hPowers hB) 0 (toB aad)) (ct.take nC) hCb
@@ -84,14 +74,14 @@ theorem open_model12 (rk nonce ct aad : List Nat) (t fuel : Nat) (hn : nonce.len
   have r2 := ghUpdate_rep gmulOK hH hh hP r1 (toB (ct.take nC))
   have hCl : (ct.take nC).length = nC := by rw [List.length_take]; omega
   -- the expected tag
-  have hetag := tagN_eq rk (nonce ++ [0, 0, 0, 1]) hB _ aad.length nC t r2.1 (loadR_lt hBl)
+  have hetag := tagN_eq rk (jb) hB _ aad.length nC t r2.1 (loadR_lt hBl)
   rw [← toB_take, ← toB_drop, hy0, hy1, hj0, natToBlock_blockToNat (by rw [toB_length]; exact hjb), ← hetag]
   -- the plaintext
-  have hl := ladN_eq rk (nonce ++ [0, 0, 0, 1]) hjb hjbb hB (nC / 16 + 1) 0 0 (ct.take nC) hCb
-  rw [show laneAdd (blockToNat (toB (nonce ++ [0, 0, 0, 1]))) 0 = blockToNat (toB (nonce ++ [0, 0, 0, 1])) from by
+  have hl := ladN_eq rk (jb) hjb hjbb hB (nC / 16 + 1) 0 0 (ct.take nC) hCb
+  rw [show laneAdd (blockToNat (toB (jb))) 0 = blockToNat (toB (jb)) from by
     rw [laneAdd_eq]; exact ctrAdd_zero _] at hl
-  have hfst : (cryptoBlocksAux (encE rk) (hPowers hB) false ((toB (ct.take nC)).length / 16 + 1) (blockToNat (toB (nonce ++ [0, 0, 0, 1]))) 0
-      (toB (ct.take nC))).1 = toB (ladN rk (nonce ++ [0, 0, 0, 1]) (loadR hB) 0 fuel 0 0 (ct.take nC)).1 := by
+  have hfst : (cryptoBlocksAux (encE rk) (hPowers hB) false ((toB (ct.take nC)).length / 16 + 1) (blockToNat (toB (jb))) 0
+      (toB (ct.take nC))).1 = toB (ladN rk (jb) (loadR hB) 0 fuel 0 0 (ct.take nC)).1 := by
     rw [toB_length, hCl, cryptoBlocksAux_fst hE (hPowers hB) false _ _ _ _ (nC / 16 + 1) (by rw [toB_length, hCl]; omega) (by rw [toB_length, hCl]; omega),
       ← cryptoBlocksAux_fst hE (hPowers hB) true (nC / 16 + 1) _ 0 _ (nC / 16 + 1) (by rw [toB_length, hCl]; omega) (by rw [toB_length, hCl]; omega),
       ← hl.1, ladN_fst_indep rk _ (loadR hB) (nC / 16 + 1) 0 1 0 0 0,
@@ -99,14 +89,14 @@ theorem open_model12 (rk nonce ct aad : List Nat) (t fuel : Nat) (hn : nonce.len
   rw [hfst]
   -- the comparison
   have hTb : ∀ x ∈ (lanes 8 16 (tagN (loadR hB) (ghUpdate (hPowers hB) (ghUpdate (hPowers hB) 0 (toB aad)) (toB (ct.take nC)))
-      (unlanes 8 (encB rk (nonce ++ [0, 0, 0, 1]))) aad.length nC)).take t, x < 2 ^ 8 :=
+      (unlanes 8 (encB rk (jb))) aad.length nC)).take t, x < 2 ^ 8 :=
     fun x hx => mem_lanes_lt 8 16 _ x (List.mem_of_mem_take hx)
   have hDb : ∀ x ∈ ct.drop nC, x < 2 ^ 8 := fun x hx => hcb x (List.mem_of_mem_drop hx)
   have hlen : ((lanes 8 16 (tagN (loadR hB) (ghUpdate (hPowers hB) (ghUpdate (hPowers hB) 0 (toB aad)) (toB (ct.take nC)))
-      (unlanes 8 (encB rk (nonce ++ [0, 0, 0, 1]))) aad.length nC)).take t).length = (ct.drop nC).length := by
+      (unlanes 8 (encB rk (jb))) aad.length nC)).take t).length = (ct.drop nC).length := by
     rw [List.length_take, lanes_length, List.length_drop]; omega
   by_cases heq : (lanes 8 16 (tagN (loadR hB) (ghUpdate (hPowers hB) (ghUpdate (hPowers hB) 0 (toB aad)) (toB (ct.take nC)))
-      (unlanes 8 (encB rk (nonce ++ [0, 0, 0, 1]))) aad.length nC)).take t = ct.drop nC
+      (unlanes 8 (encB rk (jb))) aad.length nC)).take t = ct.drop nC
   · rw [if_pos ((orBytes_xorN_eq_zero _ _ hlen).mpr heq), if_pos ((ctEqual_iff _ _).mpr (by rw [heq]))]
   · rw [if_neg (fun h => heq ((orBytes_xorN_eq_zero _ _ hlen).mp h)), if_neg (fun h => heq (by
       have := (ctEqual_iff _ _).mp h
